@@ -247,6 +247,15 @@ func checkC20Claim(t *Toks) string {
 		tx, err := pegin_Claim(c, rate)
 		if err != nil {
 			if proves && pays {
+				// since fix 858a1b0 a negative amount or a fee above the amount is refused: find the fee from the fee-free claim
+				if int64(amount) < 0 {
+					continue
+				}
+				if tx0, err0 := pegin_Claim(c, 0); err0 == nil {
+					if fee := uint64(float64(tx0.VirtualSize()) * rate); fee > amount {
+						continue
+					}
+				}
 				return fail("claim-rejects-valid-proof", fmt.Sprintf("rate=%d", ri))
 			}
 			continue
